@@ -37,7 +37,7 @@ CHECKS['C06'] = dict(
 
 CHECKS['C03'] = dict(
     technique='TLA+ denotational semantics of lark EBNF with the documented shaping (EBNF.tla, known answers from the docs checked by TLC) + trace validation of every tree returned by every parser/lexer pair and option setting',
-    text='EBNF.tla defines, independently of lark\'s BNF compilation and tree builder, the set of shaped trees of an input for a grammar as written (?, !, _, aliases, [..] placeholders, ? * + ~n..m, groups); TLC first checks it against the examples of docs/tree_construction.md and the count laws, then judges every tree the real lark returns on random EBNF grammars (depth<=3, <=3 rules) under Earley (3 lexers), LALR (2 lexers) and CYK with keep_all_tokens/maybe_placeholders on and off: the tree must be one of the shaped derivations, hence all engines agree when there is one. One level below, TreeBuilder.tla specifies the rule callback chain (child filter with placeholders, splicing of _rules, ?rule, PropagatePositions); every reduction of the real LALR parser is recorded (rule, children, result) and must equal Callback(rule, children) in TLC (drift level, drifting cases re-judged on the returned tree).',
+    text='EBNF.tla defines, independently of lark\'s BNF compilation and tree builder, the set of shaped trees of an input for a grammar as written (?, !, _, aliases, [..] placeholders, ? * + ~n..m, groups); TLC first checks it against the examples of docs/tree_construction.md and the count laws, then judges every tree the real lark returns on random EBNF grammars (depth<=3, <=3 rules) under Earley (3 lexers), LALR (2 lexers) and CYK with keep_all_tokens/maybe_placeholders on and off: the tree must be one of the shaped derivations, hence all engines agree when there is one. Compile.tla specifies the compilation itself (EBNF_to_BNF, SimplifyRule_Visitor, Grammar.compile: alternatives, helper rules with the numbering of lark, empty_indices, merging and pruning) and MC_Compile closes the chain on a catalogue of grammars: the shaped derivations of the compiled grammar are exactly the trees the written grammar means; the rules the real lark compiles for random grammars are compared with Compiled(G), names included. One level below, TreeBuilder.tla specifies the rule callback chain (child filter with placeholders, splicing of _rules, ?rule, PropagatePositions); every reduction of the real LALR parser is recorded (rule, children, result) and must equal Callback(rule, children) in TLC (drift level, drifting cases re-judged on the returned tree).',
     note='token level (single-character terminals), grammars with derivation cycles excluded (the oracle enumerates derivations); conventions (a)-(c) of DESIGN 6/C03',
     ref='6/C03')
 CHECKS['C04'] = dict(
